@@ -69,7 +69,11 @@ class DPT2ByteFloat(DPTNumeric):
                 exponent += 1
                 knx_value /= 2
 
-            mantisse = round(knx_value) & 0x7FF
+            significand = round(knx_value)
+            if not cls._test_boundaries(float(significand << exponent) / 100):
+                # nearest representable value is outside of the declared range
+                significand += 1 if knx_value < 0 else -1
+            mantisse = significand & 0x7FF
             msb = exponent << 3 | mantisse >> 8
             if knx_value < 0:
                 msb |= 0x80
